@@ -187,57 +187,78 @@ func (ch Change) Kind() (leave, joint, autoLeave bool) {
 }
 
 // Apply returns the configuration after the change, or an error if the change
-// is not valid on c (c is never modified).
+// is not valid on c (c is never modified). The change is classified the way
+// ConfChangeV2 does it.
 func (c Conf) Apply(ch Change) (Conf, error) {
 	if ch.Transition < TransAuto || ch.Transition > TransExplicit {
 		return Conf{}, fmt.Errorf("unknown transition %d", ch.Transition)
 	}
-	n := c.Clone()
 	leave, joint, autoLeave := ch.Kind()
 	switch {
 	case leave:
-		if !c.Joint() {
-			return Conf{}, errors.New("can't leave a non-joint config")
-		}
-		for id := range n.LN {
-			n.L[id] = true
-		}
-		n.LN = map[uint64]bool{}
-		n.O = map[uint64]bool{}
-		n.AutoLeave = false
+		return c.LeaveJoint()
 	case joint:
-		if c.Joint() {
-			return Conf{}, errors.New("config is already joint")
-		}
-		if len(c.V) == 0 {
-			return Conf{}, errors.New("can't make a zero-voter config joint")
-		}
-		n.O = cp(c.V)
-		if err := n.applySingles(ch.Changes); err != nil {
-			return Conf{}, err
-		}
-		n.AutoLeave = autoLeave
+		return c.EnterJoint(autoLeave, ch.Changes)
 	default:
-		if c.Joint() {
-			return Conf{}, errors.New("can't apply simple config change in joint config")
+		return c.Simple(ch.Changes)
+	}
+}
+
+// LeaveJoint leaves a joint configuration.
+func (c Conf) LeaveJoint() (Conf, error) {
+	if !c.Joint() {
+		return Conf{}, errors.New("can't leave a non-joint config")
+	}
+	n := c.Clone()
+	for id := range n.LN {
+		n.L[id] = true
+	}
+	n.LN = map[uint64]bool{}
+	n.O = map[uint64]bool{}
+	n.AutoLeave = false
+	return n, nil
+}
+
+// EnterJoint enters a joint configuration and applies the changes to the
+// incoming side.
+func (c Conf) EnterJoint(autoLeave bool, chs []Single) (Conf, error) {
+	if c.Joint() {
+		return Conf{}, errors.New("config is already joint")
+	}
+	if len(c.V) == 0 {
+		return Conf{}, errors.New("can't make a zero-voter config joint")
+	}
+	n := c.Clone()
+	n.O = cp(c.V)
+	if err := n.applySingles(chs); err != nil {
+		return Conf{}, err
+	}
+	n.AutoLeave = autoLeave
+	return n, nil
+}
+
+// Simple applies changes that alter the voter set by at most one.
+func (c Conf) Simple(chs []Single) (Conf, error) {
+	if c.Joint() {
+		return Conf{}, errors.New("can't apply simple config change in joint config")
+	}
+	n := c.Clone()
+	if err := n.applySingles(chs); err != nil {
+		return Conf{}, err
+	}
+	d := 0
+	for id := range c.V {
+		if !n.V[id] {
+			d++
 		}
-		if err := n.applySingles(ch.Changes); err != nil {
-			return Conf{}, err
+	}
+	for id := range n.V {
+		if !c.V[id] {
+			d++
 		}
-		d := 0
-		for id := range c.V {
-			if !n.V[id] {
-				d++
-			}
-		}
-		for id := range n.V {
-			if !c.V[id] {
-				d++
-			}
-		}
-		if d > 1 {
-			return Conf{}, errors.New("more than one voter changed without entering joint config")
-		}
+	}
+	if d > 1 {
+		return Conf{}, errors.New("more than one voter changed without entering joint config")
 	}
 	return n, nil
 }
